@@ -26,9 +26,11 @@ pub fn run_op<G: Rng + Clone>(r: &mut Random<G>, op: &str) -> R<String> {
 		}
 		_ => {
 			let n: usize = op.strip_prefix("fill:").ok_or(Bad)?.parse().map_err(|_| Bad)?;
-			let mut buf = vec![0u8; n];
-			r.fill_bytes(&mut buf[..]);
-			format!("b:{}", hex(&buf))
+			// the destination's alignment is part of the input space: start at a length-dependent offset
+			let off = (n * 5 + 1) % 8;
+			let mut buf = vec![0u8; n + 8];
+			r.fill_bytes(&mut buf[off..off + n]);
+			format!("b:{}", hex(&buf[off..off + n]))
 		}
 	})
 }
